@@ -165,7 +165,27 @@ fn cargo_cmd(dir: &Path, target: &Path, shim: Option<(&Path, &RunCfg)>) -> Comma
 
 /// (rendering, ok) of one build of the `rej` crate: ordered compiler diagnostics
 fn render_rej(dir: &Path, target: &Path, shim: &Path, rc: &RunCfg) -> Result<String, String> {
-    let out = cargo_cmd(dir, target, Some((shim, rc))).args(["build", "--offline", "-q", "--message-format=json"]).output().map_err(|e| format!("cargo: {}", e))?;
+    // (a transient empty result was seen once under heavy load: retry before giving up)
+    let mut last = String::new();
+    for attempt in 0..3 {
+        match render_rej_once(dir, target, shim, rc) {
+            Ok(r) => return Ok(r),
+            Err(e) => {
+                last = format!("attempt {}: {}", attempt + 1, e);
+                std::thread::sleep(std::time::Duration::from_millis(300));
+                // make sure cargo sees the crate as dirty
+                let lib = dir.join("src/lib.rs");
+                if let Ok(src) = std::fs::read_to_string(&lib) {
+                    let _ = std::fs::write(&lib, src);
+                }
+            },
+        }
+    }
+    Err(last)
+}
+
+fn render_rej_once(dir: &Path, target: &Path, shim: &Path, rc: &RunCfg) -> Result<String, String> {
+    let out = cargo_cmd(dir, target, Some((shim, rc))).args(["build", "--offline", "--message-format=json"]).output().map_err(|e| format!("cargo: {}", e))?;
     let mut r = String::new();
     let mut n = 0;
     for line in String::from_utf8_lossy(&out.stdout).lines() {
@@ -184,17 +204,25 @@ fn render_rej(dir: &Path, target: &Path, shim: &Path, rc: &RunCfg) -> Result<Str
         n += 1;
     }
     if n == 0 {
-        return Err(format!("rej crate produced no compiler messages; stderr: {}", String::from_utf8_lossy(&out.stderr).chars().take(600).collect::<String>()));
+        return Err(format!("rej crate produced no compiler messages; cargo status {:?}; stdout {} bytes; stderr: {}", out.status, out.stdout.len(), String::from_utf8_lossy(&out.stderr).chars().rev().take(600).collect::<String>().chars().rev().collect::<String>()));
     }
     Ok(r)
 }
 
 fn render_acc(dir: &Path, target: &Path, shim: &Path, rc: &RunCfg) -> Result<String, String> {
+    render_acc_mode(dir, target, shim, rc, true)
+}
+
+/// `hygiene = false`: plain `-Zunpretty=expanded`.  Needed when two *different layouts* of the
+/// crate are compared: the hygiene annotations carry interner indices whose width changes
+/// rustc's line breaking (and with it e.g. trailing commas), which is formatting, not expansion.
+fn render_acc_mode(dir: &Path, target: &Path, shim: &Path, rc: &RunCfg, hygiene: bool) -> Result<String, String> {
     // force the top crate to be recompiled
     let lib = dir.join("src/lib.rs");
     let src = std::fs::read_to_string(&lib).map_err(|e| e.to_string())?;
     std::fs::write(&lib, &src).map_err(|e| e.to_string())?;
-    let out = cargo_cmd(dir, target, Some((shim, rc))).args(["rustc", "--lib", "--offline", "-q", "--", "-Zunpretty=expanded,hygiene"]).output().map_err(|e| format!("cargo: {}", e))?;
+    let mode = if hygiene { "-Zunpretty=expanded,hygiene" } else { "-Zunpretty=expanded" };
+    let out = cargo_cmd(dir, target, Some((shim, rc))).args(["rustc", "--lib", "--offline", "-q", "--", mode]).output().map_err(|e| format!("cargo: {}", e))?;
     let s = String::from_utf8_lossy(&out.stdout).into_owned();
     if !s.contains("impl") {
         return Err(format!("acc crate: no expanded output; stderr: {}", String::from_utf8_lossy(&out.stderr).chars().take(800).collect::<String>()));
@@ -358,11 +386,18 @@ pub fn run(cfg: &Cfg, corpus: &Corpus) -> Result<TierResult, String> {
                 let reversed = crate_source_ordered(items, &order);
                 write_if_changed(&dir.join("src/lib.rs"), &reversed);
                 let rc = &runs[runs.len() - 1];
-                let r = if kind == "rej" { render_rej(&dir, &target, &shim, rc) } else { render_acc(&dir, &target, &shim, rc) };
+                let r = if kind == "rej" { render_rej(&dir, &target, &shim, rc) } else { render_acc_mode(&dir, &target, &shim, rc, false) };
                 write_if_changed(&dir.join("src/lib.rs"), &original);
                 let r = r?;
                 compiles += 1;
-                let (a, b) = if kind == "rej" { (normalise_rej(ref_r, &original), normalise_rej(&r, &reversed)) } else { (normalise_acc(ref_r), normalise_acc(&r)) };
+                // (for `acc` both layouts are rendered without hygiene annotations, under the same run configuration)
+                let plain_ref = if kind == "acc" {
+                    compiles += 1;
+                    Some(render_acc_mode(&dir, &target, &shim, rc, false)?)
+                } else {
+                    None
+                };
+                let (a, b) = if kind == "rej" { (normalise_rej(ref_r, &original), normalise_rej(&r, &reversed)) } else { (normalise_acc(plain_ref.as_ref().unwrap()), normalise_acc(&r)) };
                 permuted_equal = json!(a == b);
                 if a != b && violation.is_none() {
                     let fd = first_diff(&a, &b);
@@ -412,9 +447,9 @@ pub fn replay(cfg: &Cfg, v: &Value, path: &Path) -> i32 {
     }
     write_if_changed(&dir.join("src/lib.rs"), v["lib_rs"].as_str().unwrap_or(""));
     let _ = cargo_cmd(&dir, &target, None).args(["build", "--offline", "-q"]).output();
-    let f = |rc: &RunCfg| if kind == "rej" { render_rej(&dir, &target, &shim, rc) } else { render_acc(&dir, &target, &shim, rc) };
     let permuted = v["permuted"].as_bool().unwrap_or(false);
-    let ra = f(&a);
+    let f = |rc: &RunCfg| if kind == "rej" { render_rej(&dir, &target, &shim, rc) } else { render_acc_mode(&dir, &target, &shim, rc, !permuted) };
+    let ra = if permuted { f(&b) } else { f(&a) };
     let rb = if permuted {
         let original = v["lib_rs"].as_str().unwrap_or("").to_string();
         let reversed = v["lib_rs_permuted"].as_str().unwrap_or("").to_string();
